@@ -310,8 +310,10 @@ def check_shared_lexer(texts_, obs, rng):
                       case, {'text_index': k, 'first_difference': j})
         return
     lx2 = lexer()
+    import pygments.lexer
     common.check_concurrent(obs, rng, list(texts_), tokens_thunk_for(lx2),
-                            'lexer')
+                            'lexer', p=rng.choice([0.01, 0.05]),
+                            extra_files=(pygments.lexer.__file__,))
 
 
 def run(ctx):
